@@ -2,7 +2,7 @@
 # usage: tools/confirm_mutant.sh <PROP> <mN>     (files from /tmp/mutout/<PROP>/, scratch worktree /tmp/mut/<PROP>)
 # Confirms: demo passes on the clean tree, fails with the change; the whole unedited suite passes with the change.
 set -u
-id="$1"; m="$2"; wt=/tmp/mut/$id; out=/tmp/mutout/$id
+id="$1"; m="$2"; wt=${MUTWT:-/tmp/mut}/$id; out=${MUTOUT:-/tmp/mutout}/$id
 cd "$wt" || exit 9
 git checkout -q -- . ; rm -f tests/zz_demo.rs
 export CARGO_TARGET_DIR=$wt/target
